@@ -28,6 +28,7 @@ import LarkVerif.Recons
 import LarkVerif.ForestVisit
 import LarkVerif.TableSer
 import LarkVerif.LR0
+import LarkVerif.LR0Viable
 import LarkVerif.ForestCert
 import LarkVerif.Prune
 import Std.Data.HashMap
@@ -679,7 +680,20 @@ def handle (j : Json) : Except String Json := do
     let G : EarleyProto.Grammar := ⟨rules⟩
     let A : LR0.Auto := ⟨items, kernels, trans⟩
     let bad := (List.range items.length).filter fun q => !LR0.sameSet (A.itemsOf q) (LR0.closure G (A.kernelOf q))
-    pure (Json.mkObj [("ok", Json.bool (LR0.checkLR0 G A)), ("states_not_closure_of_kernel", natArr bad)])
+    -- hypotheses of LR0.shift_symbol_viable (Props.C08.lalr_shifted_terminal_is_legal): a productivity certificate and the shape of the start kernel
+    let prod ← match j.getObjVal? "order" with
+      | .ok o => do
+        let idxs ← natListOf o
+        pure (Json.bool (EarleyProto.productiveB G (idxs.filterMap fun k => rules[k]?)))
+      | .error _ => pure Json.null
+    let startOk ← match j.getObjVal? "q0" with
+      | .ok o => do
+        let q0 ← o.getNat?
+        let K := A.kernelOf q0
+        let root := (K.head?.map (·.1.lhs)).getD 0
+        pure (Json.bool (decide (q0 < items.length) && !K.isEmpty && K.all (fun x => x.2 == 0 && x.1.lhs == root && rules.contains x.1)))
+      | .error _ => pure Json.null
+    pure (Json.mkObj [("ok", Json.bool (LR0.checkLR0 G A)), ("states_not_closure_of_kernel", natArr bad), ("productive", prod), ("start_kernel_ok", startOk)])
   | "table_ser" =>
     -- {"table": [[state, [[name, kind, arg]...]]...], "enc": {"tokens": [...], "states": [[state, [[idx, kind, arg]...]]...]}}
     let actOf (k a : Json) : Except String TableSer.Act := do
